@@ -341,7 +341,10 @@ pub fn c05(x: &str, toks: &[GTok], out: &str, cfg: &Cfg, ctx: &mut Ctx) {
         indent: keep.iter().map(|&i| li_all.indent[i].clone()).collect(),
     };
     let unit = cfg.indent_unit();
-    let case = || case_fmt("c05", x, cfg);
+    let case = || {
+        json!({"oracle": "c05", "input": x, "cfg": cfg,
+               "gtoks": toks.iter().map(|t| json!([t.text, t.marks, t.pop_k, t.pop_o])).collect::<Vec<_>>()})
+    };
     let mut ostack: Vec<Option<String>> = vec![];
     let mut kstack: Vec<Option<String>> = vec![];
     let mut checked = 0;
